@@ -43,7 +43,77 @@ def unpack_stages(prop, tier, seed):
     raise KeyError(prop)
 
 
+PACK_JUDGE = {"module": "Judge_Pack", "cfg": "Judge_Pack.cfg"}
+
+
+def pack_stage(name, universe, rulemode, prop, seed, extra_args=None, **kw):
+    # user rules spell names literally: only the identity table is sound where rules refer to names
+    g = "0" if universe in ("ignore", "spell") else "0,%d" % (seed * 3 + 1)
+    d = dict(name=name, module="MC_Pack", cfg="MC_Pack.cfg", family="pack",
+             overrides={"Universe": '"%s"' % universe, "RuleMode": '"%s"' % rulemode},
+             vh_args=["-props", prop, "-gamma", g] + (extra_args or []), judge=PACK_JUDGE, exhaustive=True)
+    d.update(kw)
+    return d
+
+
+def pack_stages(prop, tier, seed):
+    q = tier == "quick"
+    if prop == "C03":
+        st = [pack_stage("ign1", "ignore", "single", prop, seed)]
+        if q:
+            st.append(pack_stage("ign2q", "ignore", "pairq", prop, seed))
+        else:
+            st.append(pack_stage("ign2", "ignore", "pair", prop, seed, timeout=3000))
+        return st
+    if prop == "C02":
+        st = [pack_stage("rt", "rt", "none", prop, seed)]
+        if not q:
+            st.append(pack_stage("safety", "safety", "none", prop, seed, timeout=3000))
+            st.append(pack_stage("ign1", "ignore", "single", prop, seed))
+        return st
+    if prop in ("C05", "C20", "C19"):
+        st = [pack_stage("safety", "safetyq" if q else "safety", "none", prop, seed, timeout=3000)]
+        if not q:
+            st.append(pack_stage("rt", "rt", "none", prop, seed))
+            st.append(pack_stage("ign1", "ignore", "single", prop, seed))
+        return st
+    if prop == "C16":
+        return [pack_stage("spell", "spell", "none", prop, seed, extra_args=["-mode", "fresh"])]
+    raise KeyError(prop)
+
+
+PACK_ASSUME = ["arena.go gamma/pi (order- and prefix-preserving name table, modes, times incl. tenths, contents)",
+               "archive/tar + compress/gzip readers (slug read back independently of go-slug)", "TLC",
+               "worker subprocess watchdog (12 s for operations that take milliseconds)"]
+
 PROPS = {
+    "C02": dict(stages=pack_stages, key="c02", wkey="w02", kfkey="kf02",
+                rule="cases = (tree, options) pairs of spec/MC_Pack.tla universes; real Pack then real Unpack into an empty "
+                     "directory; judged by C02Diffs (RoundTrip.tla) for trees whose links are relative and in-tree; "
+                     "non-trivial = slug with >= 2 entries",
+                assume=PACK_ASSUME),
+    "C03": dict(stages=pack_stages, key="c03", wkey="w03", kfkey="kf03",
+                rule="cases = (rule list, options) over a saturated 3-level tree with .git/.terraform/modules and a dereferenced "
+                     "external directory; rule lists = all single exclusion rules of the pattern universe and (exclusion, negation) "
+                     "pairs; judged: shipped non-directory names = own-path L0 semantics (Ignore.tla SpecExcluded)",
+                assume=PACK_ASSUME),
+    "C05": dict(stages=pack_stages, key="c05", wkey="w05", kfkey="kf05",
+                rule="cases = arenas with in-tree / out-of-tree / sibling-prefix / chained / directory / absolute links x "
+                     "dereference x ignore x allow-list; judged by C05Bad (file data only from what the archive name denotes, "
+                     "link entries inside the archive root, names inside the root), out-of-tree links rejected as illegal, "
+                     "Unpack accepts the slug of a relatively linked tree",
+                assume=PACK_ASSUME),
+    "C16": dict(stages=pack_stages, key="c16", wkey="w16", kfkey="kf16",
+                rule="cases = spelling of src x working directory x preceding call history x concurrent second Pack x ignore "
+                     "on/off, each in a fresh process, compared with the canonical spelling run in another fresh process",
+                assume=PACK_ASSUME),
+    "C19": dict(stages=pack_stages, key="c19", wkey="w19", kfkey="kf19",
+                rule="cases = Pack over arenas with link cycles, links to fifos, self-containing external directories, "
+                     "with dereferencing on/off; verdict: the call returns (no panic, crash or hang under the watchdog)",
+                assume=PACK_ASSUME),
+    "C20": dict(stages=pack_stages, key="c20", wkey="w20", kfkey="kf20",
+                rule="cases as C05; judged: Meta.Files = entry names in order, Meta.Size = sum of body bytes = sum of header sizes",
+                assume=PACK_ASSUME),
     "C01": dict(stages=unpack_stages, key="c01", wkey="w01", kfkey="kf01",
                 rule="cases = terminal behaviours of spec/Unpack.tla (entry sequences over the hostile alphabet, "
                      "arena with sibling dx and victims v, w); distinct = distinct entry histories; non-trivial = "
